@@ -95,5 +95,10 @@ CLAIMED = {
   note="Bounds: k = 2 (quick) / 3 (thorough) requests, symbolic hosts (incl. unknown), tokens/users of 1 symbolic byte, symbolic endpoint readiness, answers and cache expiry; caching on/off. Stubs: the k8s token cache and LRU expire cache are reference models (an object that returns only what was put into it), json.Marshal is an injective key model, exponential back-off calls once. Counterexamples are replayed natively against the real caches. Outside: the cache implementations themselves, the cleanup goroutine, reconfiguration between requests.",
   technique="symbolic execution of go/ssa + SMT, provenance tagging",
   ref="9/C12"),
+ "C06": dict(
+  text="Bounded symbolic model checking of kubegateway's token-bucket wrapper on the real stack (NewFlowControl, resizeableTokenBucket, client-go token bucket, golang.org/x/time/rate executed from source): for all (qps, burst) the schema's numbers reach the library bucket unchanged, TryAcquire is exactly one TryAccept of the current bucket, Resize swaps in a bucket with the new numbers, and the installed bucket's capacity is the configured burst. Thorough tier additionally attacks the k-call bound admitted <= burst + qps*T + 1 and the not-stricter clause through the real float code under the rounding relation and under an exact-real idealisation.",
+  note="PARTIAL in the quick tier: the k-step rate bound through x/time/rate's float64 code is only attempted in the thorough tier, and there many obligations exceed the solver's reach (reported INCONCLUSIVE, never as success): mixed integer division by 10^9, to_int and the rounding relation. The quick tier decides the part kubegateway itself contributes (configuration hand-over, delegation, reconfiguration, capacity). Concurrency of callers is outside (the library's mutex is taken as serialising).",
+  technique="symbolic execution of go/ssa + SMT (QF_BV, LIRA with rounding relation for float64, symbolic clock)",
+  ref="9/C06"),
 }
 NOT_APPLICABLE = {}
